@@ -5,7 +5,9 @@ Core Lean only.
 Transcribed (see DESIGN.md §5/C01 for the exact reading of the Python):
 
 * results are `(bindings, is_false)`; here `(Env × Bool)` with the Bool = **is_true**;
-* `Variable._evaluate__`: bound → one result whose truth is the truthiness of the bound value;
+* `Variable._evaluate__`: bound → one result, whose truth is the truthiness of the bound value where the variable
+  itself is a condition (parent is a logical operator / conditions root) and TRUE where it is an operand (`boundFlag`;
+  before fix commit `78cb732` it was the truthiness everywhere: F-C01-3 / F-C02-1);
   unbound → one result per domain element, true;
 * `Literal` is a `Variable` node with its own id and a one-element domain: its binding travels in the
   environment (so a literal can be met *bound*, e.g. under `for_all`);
@@ -282,18 +284,32 @@ def flatMapM {α β} (xs : List α) (f : α → Except Err (List β)) : Except E
     let b ← flatMapM r f
     pure (a ++ b)
 
-/-- `Variable._evaluate__` (also used for the quantified variable of `ForAll`) -/
+/-- `Variable._evaluate__` of the quantified variable of `ForAll` (its parent is the `ForAll`, a logical operator, so
+a bound value is flagged with its truthiness; `ForAll` and the sub-query model ignore the flag) -/
 def evalVar (w : World) (v : VarId) (env : Env) : List (Env × Val × Bool) :=
   match env.lookup (.var v) with
   | some x => [(env, x, truthy x)]
   | none => (w.dom v).map fun x => ((.var v, x) :: env, x, true)
 
+/-- the flag of an already BOUND variable / literal node: its truthiness only where the node itself is a condition
+(parent is a logical operator, or it is the conditions root, or — `Model/EqlSub.lean` evaluates a sub-query's condition
+with `eval` — the whole condition of a nested query); as an operand (of a comparison, an attribute access, a call) a
+falsy value is a value like any other (repair of F-C01-3 / F-C02-1, fix commit `78cb732`) -/
+def boundFlag (condPos : Bool) (x : Val) : Bool := if condPos then truthy x else true
+
+/-- `Variable._evaluate__` of a variable node used as an operand (`condPos = false`) or as a condition
+(`condPos = true`); same shape as `evalVar` (which is `evalVarAt w true`) -/
+def evalVarAt (w : World) (condPos : Bool) (v : VarId) (env : Env) : List (Env × Val × Bool) :=
+  match env.lookup (.var v) with
+  | some x => [(env, x, boundFlag condPos x)]
+  | none => (w.dom v).map fun x => ((.var v, x) :: env, x, true)
+
 /-- a term as an operand (`condPos = false`) or as a condition (`condPos = true`): `(bindings, value, is_true)` -/
 def evalTerm (w : World) (condPos : Bool) : Term → Env → Except Err (List (Env × Val × Bool))
-  | .var v, env => .ok (evalVar w v env)
+  | .var v, env => .ok (evalVarAt w condPos v env)
   | .lit id x, env =>
     match env.lookup (.lit id) with
-    | some y => .ok [(env, y, truthy y)]
+    | some y => .ok [(env, y, boundFlag condPos y)]
     | none => .ok [((.lit id, x) :: env, x, true)]
   | .attr t n, env => do
     let rs ← evalTerm w false t env
